@@ -62,7 +62,7 @@ CHECKS["C03"] = ("parse-family", "TLA+ model checking: ParseRobust.tla is an Imp
    "MC_Parse.tla enumerates part combinations and checks outcome # panic; each is concretised to a binary and parsed by Module::parse and "
    "Component::parse (replay, outcome class compared with the model = drift check); truncations and seeded byte substitutions of those binaries "
    "and of the corpora are parsed too; ParseTrace.tla validates the outcomes",
-   "no panic on: all combinations of <= 2 (quick) / 3 (thorough) malformed-or-unusual parts; every truncation at +-1 of every section boundary and seeded single-byte substitutions of ~2k base binaries (85k quick / 600k thorough parses per API)",
+   "no panic on: all combinations of <= 2 (quick) / 3 (thorough) malformed-or-unusual parts; every truncation at +-1 of every section boundary and seeded single-byte substitutions of ~2k base binaries (85k quick / about 3M thorough parses per API)",
    "DESIGN.md 6 C03, 7")
 
 CONTENT_TECH = ("TLA+ model checking: MC_Content.tla enumerates programs of API calls per group over the list semantics of Content.tla "
